@@ -371,6 +371,17 @@ Theorem C15_weekday_month_from_str_total : forall s,
 Proof. exact weekday_month_from_str_total. Qed.
 Print Assumptions C15_weekday_month_from_str_total.
 
+(** ** Rounding (C17): DurationRound for NaiveDateTime ([Proofs.C17.ndt_op m] is duration_trunc / duration_round_up / duration_round of Model/Round.v).  C17 states its theorems modulo the exactness of checked_add_signed / checked_sub_signed / timestamp_nanos_opt ([ndt_links]); the premise is discharged here from C02 and C03.  PARTIAL: non-leap date-times (C03's domain); every span, TimeDelta::MIN / MAX / zero included: failure is by value.  DurationRound for DateTime (repaired f2640c4): correspondence + judge *)
+Theorem C15_ndt_links_nonleap : 
+  Proofs.C17.ndt_links Proofs.C03.inst Proofs.C03.nvalid.
+Proof. exact ndt_links_nonleap. Qed.
+Print Assumptions C15_ndt_links_nonleap.
+Theorem C15_ndt_round_total_partial : forall a d, 
+  Proofs.C03.nvalid a -> Proofs.C06.valid d ->
+  forall m, returns (Proofs.C17.ndt_op m a d) /\ forall r, Proofs.C17.ndt_op m a d = Val (inl r) -> Proofs.C03.nvalid r.
+Proof. exact ndt_round_total_partial. Qed.
+Print Assumptions C15_ndt_round_total_partial.
+
 (** ** Parsers *)
 (* every well-formed UTF-8 string (C10) *)
 Theorem C15_parse_from_rfc3339_total : forall s, 
@@ -556,6 +567,9 @@ Print Assumptions C15_hypotheses_inhabited.
        <DateTime<Tz> as Datelike>::with_ordinal0;
      C15_ndt_days_total_partial
        NaiveDateTime::checked_add_days; NaiveDateTime::checked_sub_days;
+     C15_ndt_round_total_partial
+       <NaiveDateTime as DurationRound>::duration_round; <NaiveDateTime as DurationRound>::duration_trunc;
+       <NaiveDateTime as DurationRound>::duration_round_up;
      C15_ndt_signed_total_partial
        NaiveDateTime::checked_add_signed; NaiveDateTime::checked_sub_signed;
      C15_parse_items_total_partial
@@ -592,8 +606,7 @@ Print Assumptions C15_hypotheses_inhabited.
        DelayedFormat<I>::write_to; <DelayedFormat<I> as Display>::fmt;
      none: C17 theorems are conditional on links to C03 (modulo_add_exact); correspondence + judge
        <DateTime<Tz> as DurationRound>::duration_round; <DateTime<Tz> as DurationRound>::duration_trunc;
-       <DateTime<Tz> as DurationRound>::duration_round_up; <NaiveDateTime as DurationRound>::duration_round;
-       <NaiveDateTime as DurationRound>::duration_trunc; <NaiveDateTime as DurationRound>::duration_round_up;
+       <DateTime<Tz> as DurationRound>::duration_round_up;
      none: constant (returns Single(self)); no trapping step in the model
        <FixedOffset as TimeZone>::offset_from_local_date; <FixedOffset as TimeZone>::offset_from_local_datetime;
        <Utc as TimeZone>::offset_from_local_date; <Utc as TimeZone>::offset_from_local_datetime;
